@@ -137,9 +137,9 @@ def args_shard(spec, emit):
                 try:
                     est.fit(X, y)
                     d2, v2 = PB.model_digest(est)
-                    # (the CSC group Lipschitz constants come from a randomly started power method: equal up to 1e-6)
+                    # (the CSC group Lipschitz constants come from a randomly started power method: equal up to the solver tolerance)
                     same = d1 == d2 or (est_name == "GroupLasso" and ps["storage"] == "csc" and all(
-                        np.allclose(v1[k], v2[k], rtol=1e-6, atol=1e-9) for k in v1))
+                        np.allclose(v1[k], v2[k], rtol=1e-3, atol=1e-4) for k in v1))   # both fits stop at tol=1e-6
                     if not same:
                         viols.append(dict(mechanism="second-fit-differs-from-first", estimator=est_name, storage=ps["storage"],
                                           detail="%s vs %s" % (str(v1)[:150], str(v2)[:150])))
